@@ -15,6 +15,7 @@ Str = z3.StringSort()
 Int = z3.IntSort()
 Bool = z3.BoolSort()
 Real = z3.RealSort()
+SetV = z3.SetSort(V)
 
 _F: dict = {}
 
